@@ -115,6 +115,13 @@ package core
 
 // The per-transaction event lists are positional: entry i belongs to transaction i, whether or not
 // its receipt emitted events - nothing is filtered out.
+// (slices.DeleteFunc and friends compact a slice in place: assumed, result length unconstrained.)
+//@ extern func slices.DeleteFunc
+//@   modifies s[..]
+//@   ensures len(result) <= len(s)
+//@ extern func slices.Delete
+//@   modifies s[..]
+//@   ensures len(result) <= len(s)
 //@ func (extractAllTransactionEvents).extract
 //@   props C07
 //@   arith int
